@@ -10,6 +10,10 @@ CHECKS = {
     'C03': p_exec.c03,
     'C04': p_exec.c04,
     'C14': p_exec.c14,
+    'C05': p_exec.c05,
+    'C06': p_exec.c06,
+    'C07': p_exec.c07,
+    'C15': p_exec.c15,
     'C08': p_exec.c08,
     'C09': p_exec.c09,
     'C10': p_exec.c10,
